@@ -42,12 +42,14 @@ def gen(tier, seed, shard, nshards):
     for k in range(1600 if tier == "quick" else 40000):
         if k % nshards == shard:
             yield "sampled-dag", {"masks": _gc.sampled_dag(("C08", seed, "sparse-big", k), 10, 14, max_edges=10)}
+    for k in range(64 if tier == "quick" else 3000):
+        if k % nshards == shard:
+            yield "sampled-dag", {"masks": _gc.dense_dag(("C08", seed, "densedag", k))}
     for c in _gc.iter_pdag_cases((3, 4), shard, nshards):
         yield "embedded-pdag", dict(c, P=9 + c["code"] % 5)
     for c in _gc.iter_dag_cases((3, 4, 5), shard, nshards):
         if c["p"] < 5 or c["code3"] % 7 == 0:
             yield "embedded-dag", dict(c, P=9 + c["code3"] % 5)
-
     sidx = 0
     for pp in (6, 7, 8, 9, 10):
         for name in sorted(gmat.named_shapes(pp)):
